@@ -356,6 +356,10 @@ def gen_history(r, prog, n_ops, weights=None, sane=0.8, hand_n=0, slots=3, olds=
         if kind == "edge":
             # read B, then write something B may depend on (the interleaving C03 searches)
             a, b, en = r.choice(edges)
+            if r.random() < 0.35:
+                # the dependent holds a user value of its own (what a forced / defaulted value hides and later uncovers)
+                tb = tab[b]["type"]
+                ops.append(["set", b, r.choice(kgen.SANE[tb])])
             if en and r.random() < 0.6:
                 ops.append(["set", en, "y"])
             ops.append(["read", [b], 15])
